@@ -197,4 +197,13 @@ for _h in _c07.HARNESSES:
         HARNESSES.append(_h)
         TIER_HARNESSES["quick"].append(_h.name)
         TIER_HARNESSES["thorough"].append(_h.name)
+# a text cell stores a key into the table's string list: "read back exactly" needs the list to keep texts apart whenever
+# they differ as code-point sequences (H01-text treats the list as a contract; the real DataLists code is decided here)
+from specs import c06 as _c06   # noqa: E402
+
+for _h in _c06.HARNESSES:
+    if _h.name in ("H06a-texts", "H06a-two-saves"):
+        HARNESSES.append(_h)
+        TIER_HARNESSES["quick"].append(_h.name)
+        TIER_HARNESSES["thorough"].append(_h.name)
 PROPERTY = "C01"
